@@ -37,7 +37,7 @@ def shards(tier):
 
 def required_classes(tier):
     out = ["av:" + p for p in PERTS if p not in ("identity-key",)] + ["fav:" + p for p in ("sig-length", "key-plus-torsion", "honest", "drop-signer", "dup-signer", "subst-key", "empty", "empty-infinity", "bad-key", "sk-and-r-sk", "negated", "other-message")]
-    out += ["av:large-set", "fav:large-set", "agg:large-set", "typed-variants", "mutable-list-reused", "msg:starts-with-own-pk", "agg:multiplicity", "agg:sum", "agg:permutation", "agg:bracketing", "agg:refuse", "agg:undecodable", "suite:basic", "suite:aug", "suite:pop", "n>=2"]
+    out += ["av:same-message", "av:large-set", "fav:large-set", "agg:large-set", "typed-variants", "mutable-list-reused", "msg:starts-with-own-pk", "agg:multiplicity", "agg:sum", "agg:permutation", "agg:bracketing", "agg:refuse", "agg:undecodable", "suite:basic", "suite:aug", "suite:pop", "n>=2"]
     return out
 
 
@@ -274,6 +274,27 @@ def run(rec):
         fav("sk-and-r-sk", [pks[0], pk_neg], msg, MB.aggregate([fs[0], bmon.m_sign("pop", sk_neg, msg)]))
         if n >= 2:
             fav("sk-and-r-sk", pks + [pk_neg], msg, MB.aggregate(fs[1:]))       # identity-cancelling pair inside a larger honest set: sum rule says True
+        # ------------------------------------------------ AggregateVerify when ALL messages are the same byte string (legal outside the
+        # basic suite): the general rule still applies - as many keys as messages, signature = sum - whatever shortcut an
+        # implementation takes for this shape
+        for sname in sorted({suite, "pop"}):
+            Sx = suites[sname]
+            ss = fs if sname == "pop" else [bmon.m_sign(sname, sk, msg) for sk in sks]
+            sagg = MB.aggregate(ss)
+
+            def avs(P, M_, sg, what):
+                rec.case("av:same-message", ("avs", sname, tuple(P), tuple(M_), sg), sample={"fn": "AggregateVerify", "suite": sname, "perturbation": "all messages equal; " + what, "n_keys": len(P), "n_msgs": len(M_)})
+                return call(Sx.AggregateVerify, list(P), list(M_), sg)
+            avs(pks, [msg] * n, sagg, "honest")
+            avs(pks, [msg] * (n + 1), sagg, "one message too many")
+            avs(pks, [msg] * (n - 1), sagg, "one message too few")
+            avs(pks + [pk_x], [msg] * n, sagg, "one key too many")
+            avs(pks + [pk_x], [msg] * n, MB.aggregate(ss + [bmon.m_sign(sname, sk_x, msg)]), "one key too many, signature over all listed keys")
+            if n >= 2:
+                avs(pks, [msg], sagg, "a single message for all keys")
+                avs(pks[:-1], [msg] * n, MB.aggregate(ss[:-1]), "one key too few, signature over the listed keys")
+            avs([pks[0], pk_neg], [msg, msg], inf_sig, "keys sk and r - sk")
+            avs(pks + [pk_neg], [msg] * (n + 1), MB.aggregate(ss[1:]) if n >= 2 else inf_sig, "keys sk and r - sk inside a larger set")
 
 
 def large_sets(rec, suites, part, quick):
